@@ -36,7 +36,15 @@ pub fn aware_message(cx: &Cx, md: &SignModel) -> Message<'static> {
         State::Unconfigured | State::ConfigFailed => Message::RequestOperation(a, Operation::ReceiveConfig),
         State::ConfigInProgress => {
             if md.chunks == 0 || cx.chance(1, 8) {
-                Message::SendData(Offset(0), gens::data(gens::config_block(cx)))
+                let mut block = gens::config_block(cx);
+                if cx.chance(1, 10) {
+                    // a record that starts like a configuration block but is longer than one (padded
+                    // by its sender, or really the first record of somebody else's page)
+                    cx.probe("config_block_with_trailing_bytes");
+                    let extra = if cx.chance(1, 2) { 16 * (1 + cx.draw(4) as usize) } else { 1 + cx.draw(60) as usize };
+                    block.extend(gens::payload(cx, extra));
+                }
+                Message::SendData(Offset(0), gens::data(block))
             } else {
                 count_message(cx, md.chunks)
             }
@@ -52,7 +60,10 @@ pub fn aware_message(cx: &Cx, md: &SignModel) -> Message<'static> {
                 if cx.chance(1, 2) { count_message(cx, md.chunks) } else { Message::SendData(Offset(0), gens::data(cx.bytes(16))) }
             } else {
                 let off = if at_boundary { 0 } else { have as u16 };
-                let n = if cx.chance(1, 10) { gens::chunk_len(cx) } else { 16usize.min(page_len.saturating_sub(if at_boundary { 0 } else { have })).max(1) };
+                // a sender that leaves off the filler after the last column aims at the unpadded length
+                let unpadded = if md.w > 0 && md.h > 0 { 4 + md.w as usize * ((md.h as usize + 7) / 8) } else { page_len };
+                let goal = if !at_boundary && have < unpadded && cx.chance(1, 10) { unpadded } else { page_len };
+                let n = if cx.chance(1, 10) { gens::chunk_len(cx) } else { 16usize.min(goal.saturating_sub(if at_boundary { 0 } else { have })).max(1) };
                 Message::SendData(Offset(off), gens::data(gens::payload(cx, n)))
             }
         }
@@ -168,7 +179,12 @@ pub fn make_signs(cx: &Cx) -> Vec<(flipdot_core::Address, flipdot_core::PageFlip
             if cx.chance(1, 8) {
                 // a crowded bus
                 cx.probe("bus_with_8_or_more_signs");
-                8 + cx.draw(5) as usize
+                if cx.chance(1, 4) {
+                    cx.probe("bus_with_more_than_32_signs");
+                    33 + cx.draw(8) as usize
+                } else {
+                    8 + cx.draw(5) as usize
+                }
             } else {
                 3
             }
@@ -311,12 +327,12 @@ impl Scenario for Flood {
     }
     fn runs(&self, tier: Tier) -> u64 {
         match tier {
-            Tier::Quick => 8,
+            Tier::Quick => 12,
             Tier::Thorough => 256,
         }
     }
     fn describe(&self) -> &'static str {
-        "one transfer (configuration or pixels) with 65 536..70 000 data chunks, taking the sign's 16-bit chunk counter through its limit"
+        "one transfer (configuration or pixels) with 65 536..70 000 data chunks (16-byte, empty, or 255-byte records that never restart the page), taking the sign's 16-bit chunk counter and its pending buffer through their limits"
     }
     fn run(&self, cx: &Cx) -> Result<(), Violation> {
         let a = gens::address(cx);
@@ -327,7 +343,9 @@ impl Scenario for Flood {
             w.log_messages = false;
             w.delivery_cap = 200_000;
         }
-        let in_pixels = cx.draw(2) == 1;
+        // the six combinations of (configuration | pixels) x (chunk shape) are taken in turn by run index
+        let combo = cx.index() % 6;
+        let in_pixels = combo % 2 == 1;
         let total = 65_536 + cx.draw(4_465);
         let deliver = |m: Message<'static>| {
             let _ = world.lock().deliver(&m);
@@ -339,12 +357,21 @@ impl Scenario for Flood {
             deliver(Message::DataChunksSent(ChunkCount(1)));
             deliver(Message::RequestOperation(a, Operation::ReceivePixels));
         }
-        let small = cx.draw(2) == 1;
+        let shape = combo / 2;
+        let small = shape == 1;
+        // third shape: maximal 255-byte records that never restart the page, so that the sign's pending
+        // buffer itself grows past 64 KiB (and past 16 MiB) at an odd boundary
+        let big = shape == 2;
+        if big {
+            cx.probe("pending_buffer_grown_past_64k");
+        }
         for i in 0..total {
             if cx.failed() {
                 break;
             }
-            if in_pixels {
+            if in_pixels && big {
+                deliver(Message::SendData(Offset(16), gens::data(vec![0x5A; 255])));
+            } else if in_pixels {
                 let n = if small { 0 } else { 16 };
                 let off = if i % 3 == 0 { 0 } else { 16 };
                 deliver(Message::SendData(Offset(off), gens::data(vec![0xA5; n])));
